@@ -8,7 +8,7 @@ from collections import defaultdict
 
 from ..cli import C, find_config_dir, _check_deprecated_description_cleaning, _print_deprecation_warnings
 from ..config_loader import load_config
-from ..merchant_utils import get_all_rules, get_transforms
+from ..merchant_utils import get_all_rules, get_transforms, RulesLoadError
 from ..analyzer import parse_amex, parse_boa, parse_generic_csv
 
 
@@ -54,10 +54,14 @@ def cmd_discover(args):
 
     # Load merchant rules
     merchants_file = config.get('_merchants_file')
-    if merchants_file and os.path.exists(merchants_file):
-        rules = get_all_rules(merchants_file, match_mode=rule_mode)
-    else:
-        rules = get_all_rules(match_mode=rule_mode)
+    try:
+        if merchants_file and os.path.exists(merchants_file):
+            rules = get_all_rules(merchants_file, match_mode=rule_mode)
+        else:
+            rules = get_all_rules(match_mode=rule_mode)
+    except RulesLoadError as e:
+        print(f"Error: {e}", file=sys.stderr)
+        sys.exit(1)
 
     # Parse transactions from configured data sources
     all_txns = []
